@@ -161,6 +161,66 @@ theorem C05_dispel (cat : C) (l : List I) (status : Nat) (count : Int) :
       intro f g h; rw [funext h]
     first | rfl | (rw [e]; intro k; cases l[k]? <;> rfl)
 
+theorem mem_uniq (l : List Nat) (x : Nat) : x ∈ uniq l ↔ x ∈ l := by
+  induction l with
+  | nil => simp [uniq]
+  | cons a l ih =>
+    simp only [uniq, List.mem_cons, List.mem_filter, ih]
+    by_cases h : x = a <;> simp [h]
+
+theorem nodup_uniq (l : List Nat) : (uniq l).Nodup := by
+  induction l with
+  | nil => simp [uniq]
+  | cons a l ih =>
+    simp only [uniq, List.nodup_cons, List.mem_filter]
+    exact ⟨by simp, ih.sublist List.filter_sublist⟩
+
+/-- **Dispel in the two attachment orders does not consult the random generator** -/
+theorem C05_dispel_sel_ordered (cat : C) (l : List I) (status order : Nat) (count : Int) (shuffle : List Nat) (h : order ≠ 3) :
+    dispelSel cat l status order count shuffle = dispelIdx cat l status order count := by
+  simp [dispelSel, h]
+
+/-- **Random dispel**, for every outcome of the shuffle: only candidates are selected, none twice,
+at most the requested number; and when the shuffle is a rearrangement of all candidates exactly
+min(requested, candidates) are. -/
+theorem C05_dispel_random (cat : C) (l : List I) (status : Nat) (count : Int) (shuffle : List Nat) :
+    let n := if count ≤ 0 then l.length else count.toNat
+    let sel := dispelSel cat l status 3 count shuffle
+    (∀ k ∈ sel, k ∈ candidates cat l status) ∧ sel.Nodup ∧ sel.length ≤ n ∧
+    (shuffle.Perm (List.range (candidates cat l status).length) → sel.length = min n (candidates cat l status).length) := by
+  intro n sel
+  have hsel : sel = (uniq (shuffle.filterMap fun p => (candidates cat l status)[p]?)).take n := by
+    have e : dispelCand cat l status = candidates cat l status := by
+      unfold dispelCand candidates
+      have e' : ∀ (f g : Nat → Bool), (∀ k, f k = g k) → List.filter f (List.range l.length) = List.filter g (List.range l.length) := by
+        intro f g h; rw [funext h]
+      first | rfl | (apply e'; intro k; cases l[k]? <;> rfl)
+    simp only [sel, dispelSel, beq_self_eq_true, if_true, n, e]
+  have hmemL : ∀ k, k ∈ (shuffle.filterMap fun p => (candidates cat l status)[p]?) → k ∈ candidates cat l status := by
+    intro k hk
+    obtain ⟨p, _, hp⟩ := List.mem_filterMap.1 hk
+    exact List.mem_of_getElem? hp
+  have hcn : (candidates cat l status).Nodup := List.nodup_range.sublist List.filter_sublist
+  refine ⟨?_, ?_, ?_, ?_⟩
+  · intro k hk
+    rw [hsel] at hk
+    exact hmemL k ((mem_uniq _ _).1 (List.mem_of_mem_take hk))
+  · rw [hsel]; exact (nodup_uniq _).sublist (List.take_sublist _ _)
+  · rw [hsel, List.length_take]; exact Nat.min_le_left _ _
+  · intro hp
+    rw [hsel, List.length_take]
+    congr 1
+    apply List.Perm.length_eq
+    rw [List.perm_ext_iff_of_nodup (nodup_uniq _) hcn]
+    intro a
+    rw [mem_uniq]
+    constructor
+    · exact hmemL a
+    · intro ha
+      obtain ⟨p, hlt, rfl⟩ := List.getElem_of_mem ha
+      refine List.mem_filterMap.2 ⟨p, ?_, List.getElem?_eq_getElem hlt⟩
+      exact hp.mem_iff.2 (List.mem_range.2 hlt)
+
 /-! ### complete behaviour without listeners -/
 
 /-- **Remove** (no listeners): the instances of that name leave, the others keep their order, and
@@ -222,10 +282,10 @@ leaver is announced as dispelled once and as removed once, in that order. -/
 theorem C05_dispel_nohooks (cat : C) (h : NoHooks cat) (f : Nat) (s : St Rat) (t : Int) (status order : Nat) (count : Int) :
     ∃ s', exec cat (f + 1) s (.dispel t status order count) = some s' ∧
       s'.targets t = (List.range (s.targets t).length).filterMap
-          (fun k => if (dispelIdx cat (s.targets t) status order count).contains k then none else (s.targets t)[k]?) ∧
+          (fun k => if (dispelSel cat (s.targets t) status order count s.shuffle).contains k then none else (s.targets t)[k]?) ∧
       s'.trace = s.trace ++
         ((List.range (s.targets t).length).filterMap
-          (fun k => if (dispelIdx cat (s.targets t) status order count).contains k then (s.targets t)[k]? else none)).flatMap
+          (fun k => if (dispelSel cat (s.targets t) status order count s.shuffle).contains k then (s.targets t)[k]? else none)).flatMap
           (fun i => [Ev.dispelled t i, Ev.removed t i]) := by
   show ∃ s', execWith cat (exec cat f) s (.dispel t status order count) = some s' ∧ _
   simp only [execWith]
@@ -233,9 +293,9 @@ theorem C05_dispel_nohooks (cat : C) (h : NoHooks cat) (f : Nat) (s : St Rat) (t
   refine ⟨_, rfl, ?_, ?_⟩ <;> simp [setT]
 
 /-- survivors of a removal / tick / dispel keep attachment order -/
-theorem C05_survivors_sublist (cat : C) (l : List I) (status order : Nat) (count : Int) :
+theorem C05_survivors_sublist (cat : C) (l : List I) (status order : Nat) (count : Int) (shuffle : List Nat) :
     ((List.range l.length).filterMap
-        (fun k => if (dispelIdx cat l status order count).contains k then none else l[k]?)).Sublist l :=
+        (fun k => if (dispelSel cat l status order count shuffle).contains k then none else l[k]?)).Sublist l :=
   filterMap_range_sublist l _
 
 end Modifier
